@@ -120,3 +120,42 @@ Theorem C09_flip_of_validated_stays_validated : forall H nv L st sl b ncl fl,
   In (cl_act (st, sl) fl) (canon H (all_substates nv) L) /\ cluster_valid (cl_act (st, sl) fl) = true.
 Proof. intros H nv L st sl b ncl fl Hs. exact (flip_of_valid H Hs nv L st sl b ncl fl). Qed.
 Print Assumptions C09_flip_of_validated_stays_validated.
+
+(* THE DECOMPOSITION IS CORRECT (Proofs/DecomposeProofs.v): every labelling the transcribed cluster decomposition
+   returns — for any operator string whatsoever — passes both validators.  (Partial correctness: [None] means the
+   model ran out of fuel or met a malformed string; the correspondence check would show that as a mismatch.) *)
+From QmcV Require Import Proofs.DecomposeProofs Proofs.UnconditionalPipeline.
+Theorem C09_decomposition_is_valid : forall sl b n,
+  decompose sl = Some (b, n) -> links_ok sl b = true /\ sides_ok sl b = true.
+Proof. exact decompose_valid. Qed.
+Print Assumptions C09_decomposition_is_valid.
+
+(* in navigation terms: occupied slots carry two labels and empty slots none; the output label of an operator
+   equals the input label of the next operator on each of its variables (periodically); only cluster edges
+   (constant single-site operators) separate two clusters *)
+Theorem C09_decomposition_positional : forall sl b n,
+  decompose sl = Some (b, n) ->
+  (forall p, match get_op sl p with
+             | Some _ => exists a d, bget b p = (Some a, Some d)
+             | None => bget b p = (None, None)
+             end)
+  /\ (forall p o v q kq, get_op sl p = Some o -> In v (o_vars o) ->
+        next_wrap sl p v = Some (q, kq) -> snd (bget b p) = fst (bget b q))
+  /\ (forall p o, get_op sl p = Some o -> is_edge o = false -> fst (bget b p) = snd (bget b p)).
+Proof. intros sl b n Hd. exact (good_skeleton sl b (decompose_sk_good (skeleton sl) b n Hd)). Qed.
+Print Assumptions C09_decomposition_positional.
+
+(* hence the validity test only ever fails when the decomposition returns nothing ... *)
+Theorem C09_validity_test_decided : forall c,
+  vars_in_range (length (fst c)) (snd c) = true ->
+  cluster_valid c = (Nat.eqb (count_ops (snd c)) 0 || match decompose (snd c) with Some _ => true | None => false end)%bool.
+Proof. exact cluster_valid_iff. Qed.
+Print Assumptions C09_validity_test_decided.
+
+(* ... and the model's OWN cluster update (no validation wrapper) is stationary for the SSE weight on the complete
+   configuration space of every flip-symmetric table whose bonds name existing variables *)
+Theorem C09_cluster_update_stationary : forall H nv L beta,
+  sym_ham H -> ham_vars_ok H nv ->
+  wstat (canon H (all_substates nv) L) (fun c => sse_weight H beta (snd c)) cluster_cfg.
+Proof. intros H nv L beta Hs Hr. exact (cluster_stationary_canon H Hs nv L Hr beta). Qed.
+Print Assumptions C09_cluster_update_stationary.
